@@ -172,3 +172,15 @@ package client
 //@   at call dynamic: ghost c16putbacks = c16putbacks + ite(callee == c16rb, 1, 0)
 //@   ensures c16armed && c16failed ==> result1 != nil && c16putbacks == 1
 //@   ensures result1 == nil ==> c16putbacks == 0
+
+//@ # ---- the parameter hash must not depend on map iteration order (tags are a map) ----
+//@ func CreateNetworkInterfaceOptions.Finish
+//@   maporder
+//@ func CreateNetworkInterfaceOptions.EFLO
+//@   maporder
+//@ func AssignPrivateIPAddressOptions.Finish
+//@   maporder
+//@ func AssignPrivateIPAddressOptions.EFLO
+//@   maporder
+//@ func AssignIPv6AddressesOptions.Finish
+//@   maporder
